@@ -195,12 +195,54 @@ func toGo(v Value) interface{} {
 			}
 			return out
 		}
+		if v.G == "anycap" || v.G == "intscap" {
+			// spare capacity behind the visible elements: an append into the caller's backing array shows in the snapshot
+			if v.G == "intscap" {
+				out := make([]int, len(v.Xs), len(v.Xs)+3)
+				for i, x := range v.Xs {
+					out[i] = x.I
+				}
+				hidden := out[:cap(out)]
+				for i := len(v.Xs); i < cap(out); i++ {
+					hidden[i] = -777
+				}
+				return out
+			}
+			out := make([]interface{}, len(v.Xs), len(v.Xs)+3)
+			for i, x := range v.Xs {
+				out[i] = toGo(x)
+			}
+			hidden := out[:cap(out)]
+			for i := len(v.Xs); i < cap(out); i++ {
+				hidden[i] = "hidden"
+			}
+			return out
+		}
 		out := make([]interface{}, len(v.Xs))
 		for i, x := range v.Xs {
 			out[i] = toGo(x)
 		}
 		return out
 	case "map":
+		if v.G == "holder" || v.G == "holderp" {
+			h := holder{M: map[string]int{}}
+			for i, k := range v.Ks {
+				switch keyString(k) {
+				case "Items":
+					if xs, ok := toGo(Value{T: "list", Xs: v.Vs[i].Xs, G: "intscap"}).([]int); ok {
+						h.Items = xs
+					}
+				case "Names":
+					if xs, ok := toGo(Value{T: "list", Xs: v.Vs[i].Xs, G: "strs"}).([]string); ok {
+						h.Names = xs
+					}
+				}
+			}
+			if v.G == "holderp" {
+				return &h
+			}
+			return h
+		}
 		switch v.G {
 		case "mss":
 			out := map[string]string{}
@@ -385,3 +427,71 @@ type namedString string
 type stringerValue struct{ s string }
 
 func (v stringerValue) String() string { return v.s }
+
+type holder struct {
+	Items []int
+	Names []string
+	M     map[string]int
+}
+
+// snapshot serialises a value deeply, including the elements that lie between
+// len and cap of every slice (an append into the caller's backing array is a
+// modification of the caller's data).
+func snapshot(v interface{}) string {
+	var sb strings.Builder
+	snap(&sb, reflect.ValueOf(v), 0)
+	return sb.String()
+}
+
+func snap(sb *strings.Builder, v reflect.Value, depth int) {
+	if !v.IsValid() || depth > 12 {
+		sb.WriteString("nil")
+		return
+	}
+	switch v.Kind() {
+	case reflect.Interface, reflect.Ptr:
+		if v.IsNil() {
+			sb.WriteString("nil")
+			return
+		}
+		sb.WriteString("&")
+		snap(sb, v.Elem(), depth+1)
+	case reflect.Slice:
+		fmt.Fprintf(sb, "[len=%d cap=%d:", v.Len(), v.Cap())
+		full := v
+		if v.Cap() > v.Len() {
+			full = v.Slice(0, v.Cap())
+		}
+		for i := 0; i < full.Len(); i++ {
+			snap(sb, full.Index(i), depth+1)
+			sb.WriteByte(',')
+		}
+		sb.WriteByte(']')
+	case reflect.Array:
+		sb.WriteByte('<')
+		for i := 0; i < v.Len(); i++ {
+			snap(sb, v.Index(i), depth+1)
+			sb.WriteByte(',')
+		}
+		sb.WriteByte('>')
+	case reflect.Map:
+		keys := v.MapKeys()
+		sort.Slice(keys, func(i, j int) bool { return fmt.Sprint(keys[i]) < fmt.Sprint(keys[j]) })
+		sb.WriteByte('{')
+		for _, k := range keys {
+			fmt.Fprintf(sb, "%v=", k)
+			snap(sb, v.MapIndex(k), depth+1)
+			sb.WriteByte(',')
+		}
+		sb.WriteByte('}')
+	case reflect.Struct:
+		sb.WriteByte('(')
+		for i := 0; i < v.NumField(); i++ {
+			snap(sb, v.Field(i), depth+1)
+			sb.WriteByte(';')
+		}
+		sb.WriteByte(')')
+	default:
+		fmt.Fprintf(sb, "%T:%v", v.Interface(), v.Interface())
+	}
+}
